@@ -28,12 +28,12 @@ fn cat(v: &[B32]) -> Vec<u8> {
 pub fn strategy(backends: Vec<u8>, max_n: usize) -> BoxedStrategy<Req> {
     let be = backends.clone();
     prop_oneof![
-        6 => (0u8..2, prop::sample::select(be), 1usize..=max_n).prop_flat_map(|(kind, force, n)| {
+        6 => (0u8..2, prop::sample::select(be), prop_oneof![6 => 1usize..=max_n.min(40), 1 => prop::sample::select(vec![63usize, 64, 65, 100, 128, 129, 150]), 1 => 1usize..=max_n]).prop_flat_map(|(kind, force, n)| {
             let pts = if kind == 0 { vec(edwards_point().prop_map(|(_, e)| e), n).boxed() } else { vec(super::c06::element(), n).boxed() };
             (Just(kind), Just(force), vec(secret_scalar(), n), vec(secret_scalar(), n), pts)
                 .prop_map(|(kind, force, a, b, p)| Req::new("mem.msm", vec![vec![kind], vec![force], cat(&a), cat(&b), cat(&p)]))
         }),
-        4 => (1usize..=max_n).prop_flat_map(|n| (vec(secret_scalar(), n), vec(secret_scalar(), n)).prop_map(|(a, b)| Req::new("mem.batch_invert", vec![cat(&a), cat(&b)]))),
+        4 => prop_oneof![6 => 1usize..=max_n.min(40), 1 => prop::sample::select(vec![63usize, 64, 65, 100, 128, 129, 150]), 1 => 1usize..=max_n].prop_flat_map(|n| (vec(secret_scalar(), n), vec(secret_scalar(), n)).prop_map(|(a, b)| Req::new("mem.batch_invert", vec![cat(&a), cat(&b)]))),
         6 => (0u8..6, secret32(), secret32()).prop_map(|(ty, k, aux)| Req::new("mem.drop", vec![vec![ty], k.to_vec(), aux.to_vec()])),
         3 => (0u8..13, u256_interesting()).prop_flat_map(|(ty, b)| {
             let v: BoxedStrategy<B32> = match ty { 1 | 10 => edwards_point().prop_map(|(_, e)| e).boxed(), 3 => super::c06::element(), _ => Just(b).boxed() };
